@@ -93,25 +93,22 @@ func featuresOf(p *pattern) features {
 	return f
 }
 
-func (f features) class() string {
-	var cs []string
-	add := func(b bool, s string) {
-		if b {
-			cs = append(cs, s)
+// class names the coarse class of a disagreement on path (for signatures).
+func (f features) class(path string) string {
+	for _, comp := range strings.Split(path, "/") {
+		if strings.HasPrefix(comp, ".") && comp != "." && comp != ".." {
+			return "hidden-path"
 		}
 	}
-	add(f.starstar, "starstar")
-	add(f.hiddenMod, "match-hidden")
-	add(f.matchers, "matchers")
-	add(f.dots, "dot-components")
-	add(f.but, "but")
-	add(f.typ, "type")
-	add(f.base, "abs-or-tilde")
-	add(f.trailing, "trailing-slash")
-	if len(cs) == 0 {
-		return "plain"
+	switch {
+	case f.starstar:
+		return "starstar"
+	case f.matchers:
+		return "matchers"
+	case f.dots:
+		return "dot-components"
 	}
-	return strings.Join(cs, "+")
+	return "plain"
 }
 
 type outcome struct {
@@ -191,7 +188,7 @@ func judge(c *mon.Case, how string, p *pattern, code string, exp expectation, o 
 	}
 	for _, s := range sortedKeys(exp, true) {
 		if seen[s] == 0 {
-			sig := how + ":missing:" + f.class()
+			sig := how + ":missing:" + f.class(s)
 			if f.rsas {
 				sig = how + ":missing:restricted-star-after-star"
 			}
@@ -208,7 +205,7 @@ func judge(c *mon.Case, how string, p *pattern, code string, exp expectation, o 
 	}
 	if len(extras) > 0 {
 		sort.Strings(extras)
-		c.Violation(how+":extra:"+f.class(), fmt.Sprintf("%s yields %s, which does not match (or does not exist)", code, mon.Q(extras[0])),
+		c.Violation(how+":extra:"+f.class(extras[0]), fmt.Sprintf("%s yields %s, which does not match (or does not exist)", code, mon.Q(extras[0])),
 			wit(map[string]any{"extra": quoteAll(extras)}))
 		ok = false
 	}
@@ -505,7 +502,7 @@ func runAlternatives(c *mon.Case, p0 *pattern, root string, entries []entry) {
 		}
 		for s, n := range mustN {
 			if gotN[s] < n {
-				sig := "alt:missing:" + f.class()
+				sig := "alt:missing:" + f.class(s)
 				if f.rsas {
 					sig = "alt:missing:restricted-star-after-star"
 				}
@@ -515,7 +512,7 @@ func runAlternatives(c *mon.Case, p0 *pattern, root string, entries []entry) {
 		}
 		for s, n := range gotN {
 			if n > mayN[s] {
-				sig := "alt:extra:" + f.class()
+				sig := "alt:extra:" + f.class(s)
 				if f.multiSS && mayN[s] > 0 {
 					sig = "alt:duplicate:multi-starstar"
 				}
@@ -747,7 +744,7 @@ func sameAsExpected(o outcome, exp expectation, p *pattern) bool {
 func Spec() *mon.Spec {
 	return &mon.Spec{
 		ID: "C23", Level: "exploration",
-		Rule: "case = one generated directory tree (<= 40 entries, depth <= 4; files, directories, fifos, symlinks to files/directories/nowhere; hidden names at every depth, names with spaces, unicode, control characters, glob and shell metacharacters, leading '-') with cwd inside it; 'tree' phase: 30 patterns derived from the tree's own paths (substrings replaced by ?, *, **, with match-hidden / set: / range: / class matchers, several ** per pattern, '.' and '..' components, trailing slash, absolute and ~/ variants, but:/type:/nomatch-ok, deliberately non-matching variants), each expanded (1) as an Elvish expression, (2) by glob.Pattern.Glob on the same segments, (3) by glob.Glob on the pattern string, and compared as a set (+ duplicate check, + no-match exception) with refglob, a backtracking matcher over the real tree written from language.md; 'reuse' phase: a function whose wildcard modifiers are arguments is called 3-6 times with different modifiers, every call compared with refglob. Non-trivial = expansion whose demanded result set is non-empty; distinct by expression text + expected set.",
+		Rule: "case = one generated directory tree (<= 40 entries, depth <= 4; files, directories, fifos, symlinks to files/directories/nowhere; hidden names at every depth, names with spaces, unicode, control characters, glob and shell metacharacters, leading '-') with cwd inside it; 'tree' phase: 30 patterns derived from the tree's own paths (substrings replaced by ?, *, **, with match-hidden / set: / range: / class matchers, several ** per pattern, '.' and '..' components, trailing slash, absolute and ~/ variants, but:/type:/nomatch-ok, deliberately non-matching variants), each expanded (1) as an Elvish expression, (2) by glob.Pattern.Glob on the same segments, (3) by glob.Glob on the pattern string, (4) with one literal piece replaced by a braced list of alternatives (one pattern per alternative, multiset comparison), and compared as a set (+ duplicate check, + no-match exception) with refglob, a backtracking matcher over the real tree written from language.md; 'reuse' phase: a function whose wildcard modifiers are arguments is called 3-6 times with different modifiers, every call compared with refglob. Non-trivial = expansion whose demanded result set is non-empty; distinct by expression text + expected set.",
 		Assumptions: []string{
 			"'.' and '..' are not filenames a wildcard can match; they are reachable through literal components only (the reference never lists them as matches)",
 			"a component without wildcards is resolved like a path component (symlinks to directories are followed); whether a wildcard component that matched a symlink to a directory is descended into is left open by the reference: such paths are allowed, not demanded",
@@ -759,9 +756,18 @@ func Spec() *mon.Spec {
 		},
 		ChildSetup: childSetup,
 		Phases: []mon.Phase{
-			{Name: "tree", Quick: 2400, Thorough: 40000, Run: runTree, Batch: 150},
-			{Name: "reuse", Quick: 600, Thorough: 8000, Run: runReuse, Batch: 40},
+			{Name: "tree", Quick: 2400, Thorough: 60000, Run: runTree, Batch: 150},
+			{Name: "reuse", Quick: 600, Thorough: 15000, Run: runReuse, Batch: 40},
 		},
-		Floors: map[string]int{},
+		Floors: map[string]int{
+			"distinct_nontrivial": 15000, "patterns": 25000, "pat_starstar": 8000, "pat_multi_starstar": 800,
+			"pat_match_hidden": 6000, "pat_char_matchers": 8000, "pat_dot_or_dotdot_component": 3000, "pat_but": 3000,
+			"pat_type": 2500, "pat_nomatch_ok": 3000, "pat_absolute": 1000, "pat_tilde": 700, "pat_trailing_slash": 800,
+			"pat_adjacent_wildcards": 5000, "pat_restricted_star_after_star": 1500, "expect_hidden_path": 5000,
+			"expect_deep_path_via_starstar": 3000, "expect_no_match": 3000, "expect_no_match_with_nomatch_ok": 500,
+			"got_no_match_exception": 2000, "direct_glob_calls": 10000, "direct_glob_interrupted": 800,
+			"glob_string_calls": 2500, "reuse_calls_after_first": 600, "alternative_expansions_compared": 800,
+			"tree_symlinks": 1000, "tree_hidden_entries": 3000,
+		},
 	}
 }
